@@ -470,6 +470,18 @@ def export_cases(ctx, tmpdir):
         saver.start()
         tw = W_.TokenizerWorker(saver, [], min_dur=0.3, max_dur=5, max_silence=0.3, energy_threshold=50)
         tw.start_all()
+        if fname == "big_noext":
+            # the application peeks at what has been saved so far (the public `data` property) while the stream is still running
+            import time as _t
+
+            _t.sleep(0.05)
+            try:
+                peek = saver.data
+                ctx.count("saved_data_read_while_the_stream_was_still_running")
+                if not data.startswith(bytes(peek)):
+                    ctx.violation("data-read-mid-stream-is-not-a-prefix-of-the-audio", {"case": {"raw_export": fname}, "peeked_bytes": len(peek)})
+            except Exception:
+                pass  # nothing flushed yet / header not complete: the property says nothing about a half-written file
         tw.join(120)
         saver.join(120)
         ctx.count("raw_export_runs")
